@@ -60,6 +60,23 @@ WITNESSES = {
     'lang:string-trigraph': prog([fn(0, [], 'int', seq(P(('str', b'a??!b')), ('ret', N(0))))]),
     # a string literal longer than the transpiler's 2048-byte formatting buffer
     'lang:native-long-string-literal': prog([fn(0, [], 'int', seq(P(('str', bytes((97 + i % 26) for i in range(2100)))), P(('str', bytes((65 + i % 26) for i in range(4200)))), ('ret', N(0))))]),
+    # an and/or with one CONSTANT operand still evaluates its other operand (spec 8.5: only the RIGHT operand may be skipped):
+    # in an assert, an if condition and a while condition; the effect is a print and a counter in a mut local of a helper's caller
+    'lang:assert-or-true-keeps-effect': prog([SIDE_B, fn(0, [], 'int', seq(('for', 3, N(0), N(3), ('assert', ('bin', 'or', ('call', 1, [V(3)]), ('bool', True)))),
+                                                                           ('assert', ('bin', 'and', ('call', 1, [N(7)]), ('bool', True))), P(N(99)), ('ret', N(0))))]),
+    'lang:assert-and-false-keeps-effect': prog([SIDE_B, fn(0, [], 'int', seq(P(N(1)), ('assert', ('bin', 'and', ('call', 1, [N(8)]), ('bool', False))), P(N(2)), ('ret', N(0))))]),
+    'lang:if-constant-operand-keeps-effect': prog([SIDE_B, fn(0, [], 'int', seq(('if', ('bin', 'and', ('call', 1, [N(20)]), ('bool', False)), P(N(1)), P(N(2))),
+                                                                                ('if', ('bin', 'or', ('call', 1, [N(21)]), ('bool', True)), P(N(3)), P(N(4))),
+                                                                                ('if', ('bin', 'and', ('call', 1, [N(22)]), ('bin', 'eq', N(1), N(2))), P(N(5)), P(N(6))),
+                                                                                ('let', True, 4, 'int', N(0)),
+                                                                                ('while', ('bin', 'and', ('call', 1, [V(4)]), ('bin', 'lt', V(4), N(2))), ('set', 4, ('bin', 'add', V(4), N(1)))),
+                                                                                ('ret', N(0))))]),
+    # infix chains: one precedence, strictly left to right (spec 4.3): written without parentheses in the infix spelling
+    'lang:infix-chain-left-to-right': prog([fn(0, [], 'int', seq(('let', False, 1, 'bool', ('bool', True)), ('let', False, 2, 'bool', ('bool', False)),
+                                                                  P(('bin', 'or', ('bin', 'and', V(1), V(2)), V(1))), P(('bin', 'and', ('bin', 'or', V(1), V(2)), V(2))),
+                                                                  P(('bin', 'eq', ('bin', 'or', V(2), V(1)), V(2))), P(('bin', 'sub', ('bin', 'sub', N(10), N(3)), N(2))),
+                                                                  P(('bin', 'mul', ('bin', 'add', N(2), N(3)), N(4))), P(('bin', 'lt', ('bin', 'add', N(1), N(2)), N(4))),
+                                                                  ('ret', N(0))))]),
     # a void function whose code ends with the RET of a conditional return: the last BYTE is RET, but the end is reachable
     'lang:fall-off-function-end': prog([fn(1, [(2, 'bool')], 'void', ('if', V(2), ('ret', None), ('skip',))),
                                         fn(0, [], 'int', seq(P(N(1)), ('expr', ('call', 1, [('bool', False)])), P(N(2)), ('ret', N(7))))]),
